@@ -97,7 +97,69 @@ def _attach_lan(t: Topo, rng: Rng, r: Optional[int], net, p: int, nhosts: int, v
     return lan
 
 
+def gen_dmz_cross(rng: Rng) -> dict:
+    """Misconfiguration family "two IP subnets on one layer-2 segment": two firewalls (or a firewall and a router) are cross-connected
+    so that each one's DMZ port shares a segment with a port of the other that uses ANOTHER subnet, and each routes the other's
+    subnet through a next hop on its own side.  ARP requests for those next hops are layer-2 broadcasts that arrive on a DMZ port
+    without being for the firewall; before repair F-58 each one started a look-up, i.e. the next ARP request, without end."""
+    t = Topo()
+    k2 = rng.choice(["firewall", "firewall", "router"])
+    f1, f2 = t.router("firewall"), t.router(k2)
+    sa, sb = t.switch(5), t.switch(4)
+    a, b, c, d = rng.shuffle([1, 2, 3, 4, 5, 6])[:4]
+    p = rng.choice([24, 24, 25, 28])
+    net = lambda x: (10, 0, x, 0)
+    t.nodes[f1]["ports"][1] = {"ip": _ip(net(c), 1), "mask": _mask(p)}   # internal, on segment B
+    t.nodes[f1]["ports"][2] = {"ip": _ip(net(a), 1), "mask": _mask(p)}   # DMZ, on segment A
+    t.nodes[f2]["ports"][1] = {"ip": _ip(net(b), 1), "mask": _mask(p)}   # on segment A, another subnet
+    t.nodes[f2]["ports"][2] = {"ip": _ip(net(d), 1), "mask": _mask(p)}   # DMZ (firewall) on segment B, another subnet
+    nh1, nh2 = _ip(net(c), 9), _ip(net(b), 9)
+    if rng.chance(1, 3):
+        nh2 = _ip(net(b), 1)  # a present next hop: the other device's own address on the segment
+    t.nodes[f1]["routes"].append({"addr": _ip(net(b), 0), "mask": _mask(p), "nh": nh1, "metric": 0})
+    t.nodes[f2]["routes"].append({"addr": _ip(net(c), 0), "mask": _mask(p), "nh": nh2, "metric": 0})
+    if rng.chance(1, 2):
+        t.nodes[f1]["default"] = nh1
+    if rng.chance(1, 2):
+        t.nodes[f2]["default"] = nh2
+    t.link(f1, 2, sa, t.swport(sa))
+    t.link(f2, 1, sa, t.swport(sa))
+    t.link(f1, 1, sb, t.swport(sb))
+    t.link(f2, 2, sb, t.swport(sb))
+    h1 = t.host(_ip(net(a), 5), p, _ip(net(a), 1))
+    t.link(h1, 0, sa, t.swport(sa))
+    h2 = t.host(_ip(net(d), 5), p, _ip(net(d), 1))
+    t.link(h2, 0, sb, t.swport(sb))
+    h3 = t.host(_ip(net(b), 6), p, _ip(net(b), 1))  # a host of the OTHER subnet on segment A
+    t.link(h3, 0, sa, t.swport(sa))
+    every = [[l, c2] for l in range(6) for c2 in range(3)]
+    mode = rng.choice(["open", "open", "random", "no-arp-dmz-out"])
+    for n in t.nodes:
+        if n["kind"] == "firewall":
+            n["permit"] = every if mode == "open" else ([x for x in every if rng.chance(5, 6)] if mode == "random" else [x for x in every if x != [5, 0]])
+    hosts = [h1, h2, h3]
+    targets = [nh1, nh2, _ip(net(b), 7), _ip(net(c), 7), "8.8.8.8"] + [t.nodes[h]["ip"] for h in hosts] + \
+              [prt["ip"] for r in (f1, f2) for prt in t.nodes[r]["ports"] if prt]
+    ops = [{"op": "ping", "src": h1, "dst": nh2, "count": 1}]
+    for _ in range(rng.range(6, 12)):
+        ops.append({"op": "ping", "src": rng.choice(hosts), "dst": rng.choice(targets), "count": rng.choice([1, 1, 2])})
+        if rng.chance(1, 6):
+            ops.append({"op": "arpclear", "node": rng.choice([f1, f2] + hosts)})
+    srv = rng.choice(hosts)
+    t.nodes[srv]["flag"] = True
+    for r in (f1, f2):
+        t.nodes[r]["flag"] = rng.chance(2, 3)
+    ops += [{"op": "service", "src": h, "dst": t.nodes[srv]["ip"]} for h in hosts if h != srv]
+    for n in t.nodes:
+        n.pop("used", None)
+    return {"nodes": t.nodes, "links": t.links, "air": [], "ops": ops, "ping_permit": False, "all_permit": False, "consistent": False,
+            "icmp_ident_zero": False,
+            "notes": {"routers": 2, "kinds": f"firewall+{k2}", "routing": "cross", "fw": mode, "dmz_cross": True, "permit": "some"}}
+
+
 def gen_case(rng: Rng, max_routers: int = 3) -> dict:
+    if rng.chance(1, 14):
+        return gen_dmz_cross(rng)
     t = Topo()
     nr = rng.choice([0, 1, 1, 2, 2, 3][: 2 + 2 * max_routers]) if max_routers < 3 else rng.choice([0, 1, 1, 2, 2, 2, 3, 3])
     lan_prefixes = [24, 24, 25, 28, 16, 26]
